@@ -706,7 +706,21 @@ class ExcludeRegionState(object):  # pylint: disable=too-many-instance-attribute
             # of the X, Y or Z values are provided, even if the provided values are identical to the
             # current position.  This matches the Marlin auto-retract detection behavior (at least
             # for Marlin 1.1.9).
+            lastRetraction = self.lastRetraction
             returnCommands = self._processNonMove(cmd, deltaE)
+            if (
+                    (deltaE > 0) and (not self.excluding) and
+                    (lastRetraction is not None) and
+                    lastRetraction.recoverExcluded and
+                    (not lastRetraction.firmwareRetract)
+            ):
+                # The file already recovered this retraction inside the region, so the command is
+                # an extrusion of its own.  Restore the position preceding it after the injected
+                # recovery, so it extrudes the amount the file intends.
+                returnCommands.insert(
+                    len(returnCommands) - 1,
+                    "G92 E{e}".format(e=formatNumber(eAxis.nativeToLogical(priorE, True)))
+                )
         elif (self.isAnyPointExcluded(*xyPairs)):
             wasExcluding = self.excluding
             returnCommands = self._processExcludedMove(cmd, deltaE)
